@@ -48,6 +48,8 @@ type Config struct {
 	Env        []string          `json:"env"`
 	Deadline   int               `json:"deadline_s"`
 	Validate   int               `json:"validate_vectors"`
+	Opaque     []string          `json:"opaque"` // callees replaced by "returns the zero value"
+	opaque     map[string]bool
 
 	prog   *ssa.Program
 	pkgs   map[string]*ssa.Package
@@ -172,6 +174,10 @@ func main() {
 		os.Exit(2)
 	}
 	cfg.stubs = map[string]int{}
+	cfg.opaque = map[string]bool{}
+	for _, o := range cfg.Opaque {
+		cfg.opaque[o] = true
+	}
 	debug.SetGCPercent(800)
 	start := time.Now()
 	if err := loadProgram(cfg); err != nil {
